@@ -65,6 +65,8 @@ CLAIMED = {
     "C06": dict(
         text="Calls (calls_agree_with_signatures): in the program built from a main file every call of the file's own statements names a function declared before it - by the imported "
              "statements or earlier in the file - whose parameter types are the arguments' types and whose return types are the call node's. "
+             "Definitions (definition_keeps_the_type_of_an_existing_variable; the definition parser in every context): a name of a short multi-definition that exists on the same level keeps "
+             "its type - the value must have it. "
              "Parser soundness (Props/C06Sem.lean): every AST the parser model returns - all file systems, import graphs and token sequences - satisfies the executable typing "
              "predicate PT.program (Model/PTyped.lean: operand, condition, case, index, element and builtin-argument types, variable = value type, declared return types, only "
              "language types); with the two constructs of PT.strict excluded it is typed in the emitters' sense and the Bash emitter returns a script. PT.program is evaluated on "
@@ -82,6 +84,8 @@ CLAIMED = {
              "VISIBILITY (accepted_programs_use_visible_variables, parsed_files_use_visible_variables): every variable an accepted program reads, assigns, element-assigns, copies into or counts "
              "is, at that place, a variable that a definition earlier in the same or an enclosing statement list, the parameter list, or the loop header introduced - with that type; a block's "
              "definitions end with the block, a function body sees globals and parameters only (PT.useSs; also evaluated on every accepted AST of the real parser in the run). "
+             "REDEFINITION (definitions_need_new_names, function_definitions_need_a_new_name_on_the_top_level; about the definition parsers in every context): a definition of one name and every "
+             "var definition need new names, a short definition of several names needs one new name, a function definition needs the global scope and a name findFunction does not know. "
              "Theorems (Props/C07.lean) about the scope part of the parser model: a registered definition is found and disturbs no other name; the context of a function body holds "
              "only globals; accepted parameter lists have distinct names; the scope-stack queries behind break/continue/return. Program verdicts: scope-skeleton oracle; placement "
              "rules are also checked on every parser output (MISPLACED tag).",
